@@ -367,8 +367,8 @@ def run_scenario(spec):
                 lines.append(({"op": "remove", "trial": tid}, snapshot(sch)))
                 events.append({"ev": "remove", "trial": tid, "decision": d})
                 late.append((tid, r + 1))
-            elif r >= w.upto:
-                # training script ends by itself
+            elif r >= w.upto or (spec.get("p_early") and rng.random() < spec["p_early"]):
+                # training script ends by itself (at its last level, or - `p_early` - earlier, also before its first milestone)
                 v = sign * metric_value(spec["seed"], tid, r, style)
                 sch.on_trial_complete(trials[tid], {METRIC: v, RES: r})
                 out = {"calls": searcher.take()}
